@@ -33,7 +33,7 @@ class Group:
         GROUPS[name] = s
 
 class Check:
-    def __init__(s, id, props, group, fn, params, wrapper, cxx=None, ghosts=(), requires=(), lemmas=(), ensures=(),
+    def __init__(s, id, props, group, params, wrapper, fn=None, cxx=None, ghosts=(), requires=(), lemmas=(), ensures=(),
                  assigns=None, mode='exact', setup='', tier='quick', fn_re=None, replace=(), loops=None, decl=None,
                  post='', misuse=False, cbmc_flags=(), timeout=600, note='', unwind=None, ret_cxx=None, native=True, objbits=None, config='debug'):
         assert id not in CHECKS, id
@@ -274,21 +274,23 @@ class Runner:
         if vacuity: ctext.append('/*ENS:VACUITY*/ __CPROVER_ensures(0)')
         contracts = {fcn: '\n'.join(ctext)}
         loopc = {(fcn, k): b.for_contract(v) if False else v for k, v in check.loops.items()}
+        ptypes = [t.to for t, _ in f.params if isinstance(t, Ptr) and not isinstance(t.to, (Void, Fn_t))] + [f.ret]
         gen.contracts = {} if native else contracts
         gen.loopc = {} if native else loopc
         if native:
             # types and prototypes only: the body is the real g++-compiled code
-            gen.emit([fn])
+            gen.emit([fn], need_types=ptypes)
             src = ['#define LL2C_NATIVE 1', '#include <stdio.h>', '#include <stdlib.h>', '#include <signal.h>', '#include <setjmp.h>',
                    ll2c.PRELUDE.replace('extern int EXC;', 'int EXC;')]
             fw = sorted({gen.sname(Named(t)) for t in m.types} | {v[0] for v in gen.litnames.values()})
             src += [nm + ';' for nm in fw] + gen.struct_order + [gen.proto(fn), ARITH_H, lemma_header()]
         else:
             defs = '#define ARITH_%s %s\n' % ({'exact': 'EXACT', 'uf': 'UF', 'narrow': 'NARROW'}[arith], mode.split(':')[1] if ':' in mode else '1')
-            code = gen.emit([fn], after_prelude=defs + ARITH_H + lemma_header() + '\nint EXC;\n')
+            code = gen.emit([fn], need_types=ptypes, after_prelude=defs + ARITH_H + lemma_header() + '\nint EXC;\n' + ''.join('%s %s;\n' % g_ for g_ in check.ghosts))
             src = [code]
         # ghosts
-        for ct_, n in check.ghosts: src.append('%s %s;' % (ct_, n))
+        if native:
+            for ct_, n in check.ghosts: src.append('%s %s;' % (ct_, n))
         # harness
         h = []
         nd = set()
